@@ -194,9 +194,16 @@ func (s *ArrayExp) getSubnodes() []AstNodable {
 }
 
 func (s *MapExp) getSubnodes() []AstNodable {
+	// In key order, which is the order they are formatted in: nodes on the
+	// same source line keep this order when comments are attached to them.
+	keys := make([]string, 0, len(s.Value))
+	for k := range s.Value {
+		keys = append(keys, k)
+	}
+	sort.Strings(keys)
 	subs := make([]AstNodable, 0, len(s.Value))
-	for _, n := range s.Value {
-		subs = append(subs, n)
+	for _, k := range keys {
+		subs = append(subs, s.Value[k])
 	}
 	return subs
 }
